@@ -91,6 +91,19 @@ def gen_rops(rng, n, restarts=True, bad=True):
             ops.append([3])
     return ops
 
+def hist_project(line):
+    """the content of the pending saves/removes lists is not constrained by the property (only whether
+    anything is pending, and the full list): drop it before model and implementation are compared"""
+    try:
+        v = vlib.vparse(line)
+        for o in v:
+            if isinstance(o, list) and o and o[0] == 4 and len(o) > 1 and o[1]:
+                o[1][0][1] = []
+                o[1][0][2] = []
+        return vlib.vs(v)
+    except Exception:
+        return line
+
 def hist_nontrivial(c):
     # an update of an existing key or a delete, and a flush followed by a restart
     saves = sum(1 for o in c if o[0] == 0)
@@ -145,10 +158,10 @@ def run(ck):
     n = 5000 if T else 400
     ucases = [gen_uops(rng, rng.randint(3, 40 if T else 16)) for _ in range(n)]
     ck.stream("user-histories", ucases, "C18_users_run", "C18_users", "C18_users_ok",
-              nontrivial=hist_nontrivial, sig=lambda c, e, o: "user-history")
+              nontrivial=hist_nontrivial, sig=lambda c, e, o: "user-history", project=hist_project)
     rcases = [gen_rops(rng, rng.randint(3, 40 if T else 16)) for _ in range(n)]
     ck.stream("route-histories", rcases, "C18_routes_run", "C18_routes", "C18_routes_ok",
-              nontrivial=hist_nontrivial, sig=lambda c, e, o: "route-history")
+              nontrivial=hist_nontrivial, sig=lambda c, e, o: "route-history", project=hist_project)
     m = 300 if T else 24
     def gu(r, k): return gen_uops(r, k, restarts=False)
     def gr(r, k): return gen_rops(r, k, restarts=False)
@@ -174,7 +187,7 @@ def run(ck):
         rule="(1) random histories of save/del/get/all/flush/restart on auth.* and route.* with the real JSON providers "
              "on temporary files (names/patterns in several spellings aimed at existing keys, updates with and without "
              "password change, admin flag with empty access lists, rejected URLs, flushes with nothing pending, restarts "
-             "with and without a preceding flush); the recorded provider.Flush arguments, what LoadAll sees after every "
+             "with and without a preceding flush); whether provider.Flush is called and with which full list, what LoadAll sees after every "
              "flush and the table after every restart are compared with the model and judged by ok_hist; non-trivial = "
              ">= 2 saves, a delete and a flush followed by a restart.  (2) crash experiment: a first server writes the old "
              "table (15% nothing on disk), a child process starts on it, applies a delta (7% nothing pending) and flushes; it "
